@@ -314,6 +314,26 @@ fn check_obs(obs: &[(usize, Vec<i64>)], nrows: usize, nparts: usize, expect: &dy
     Ok(())
 }
 
+/// The (a) cases are synchronous calls: a partitioner that loops forever cannot be interrupted, so they run on a helper
+/// thread; if it does not come back in time the case is reported as a failing input and the process ends.
+fn with_deadline<F: FnOnce(&mut Rng) + Send + 'static>(rng: &mut Rng, secs: u64, what: &str, f: F) {
+    let mut local = Rng(rng.0);
+    let (tx, rx) = std::sync::mpsc::channel();
+    std::thread::spawn(move || {
+        f(&mut local);
+        let _ = tx.send(local.0);
+    });
+    match rx.recv_timeout(Duration::from_secs(secs)) {
+        Ok(state) => rng.0 = state,
+        Err(_) => {
+            println!("{{\"k\":\"sync-hang\",\"what\":{},\"rng_state\":{},\"ok\":false,\"why\":{}}}", json_str(what), rng.0, json_str(&format!("hang: {what} did not return within {secs}s")));
+            use std::io::Write;
+            let _ = std::io::stdout().flush();
+            std::process::exit(0);
+        }
+    }
+}
+
 fn gen_rows(rng: &mut Rng, n: usize, dom: i64, nullp: u64) -> Vec<Row> {
     (0..n).map(|i| Row { cells: gen_cells(rng, dom, nullp), id: i as i64 }).collect()
 }
@@ -491,7 +511,10 @@ struct ExchCfg {
 }
 
 fn gen_exch(rng: &mut Rng) -> ExchCfg {
-    let m = *rng.pick(&[1usize, 2, 2, 3, 3, 4]);
+    // drop-heavy variant (1 case in 3): many small batches, small batch_size and outputs dropped after 1-2 batches, so that
+    // input tasks are still sending when the receiver hangs up (they must notice it and keep serving the other outputs)
+    let heavy = rng.chance(1, 3);
+    let m = if heavy { *rng.pick(&[2usize, 3, 4]) } else { *rng.pick(&[1usize, 2, 2, 3, 3, 4]) };
     let dom = *rng.pick(&[1i64, 2, 3, 10]);
     let nullp = *rng.pick(&[0u64, 10, 30]);
     let sorted = if rng.chance(1, 2) {
@@ -503,8 +526,10 @@ fn gen_exch(rng: &mut Rng) -> ExchCfg {
     };
     let mut inputs = vec![];
     for i in 0..m {
-        let nb = rng.below(6) as usize;
-        let sizes: Vec<usize> = (0..nb).map(|_| *rng.pick(&[0usize, 1, 2, 3, 5, 8, 12, 30])).collect();
+        let nb = if heavy { 8 + rng.below(13) as usize } else { rng.below(6) as usize };
+        let sizes: Vec<usize> = (0..nb)
+            .map(|_| if heavy { *rng.pick(&[0usize, 1, 2, 3, 4, 6]) } else { *rng.pick(&[0usize, 1, 2, 3, 5, 8, 12, 30]) })
+            .collect();
         let total: usize = sizes.iter().sum();
         let mut rows: Vec<Row> = (0..total).map(|_| Row { cells: gen_cells(rng, dom, nullp), id: 0 }).collect();
         if let Some((kc, os)) = &sorted {
@@ -517,21 +542,36 @@ fn gen_exch(rng: &mut Rng) -> ExchCfg {
         inputs.push(sizes.iter().map(|s| it.by_ref().take(*s).collect::<Vec<_>>()).collect::<Vec<_>>());
     }
     let scheme = match rng.below(3) {
-        0 => Scheme::Hash { kcols: gen_kcols(rng), n: 1 + rng.below(8) as usize },
-        1 => Scheme::RoundRobin { n: 1 + rng.below(8) as usize },
-        _ => gen_range(rng, dom, 7),
+        0 => Scheme::Hash { kcols: gen_kcols(rng), n: if heavy { 2 + rng.below(4) as usize } else { 1 + rng.below(8) as usize } },
+        1 => Scheme::RoundRobin { n: if heavy { 2 + rng.below(4) as usize } else { 1 + rng.below(8) as usize } },
+        _ => gen_range(rng, dom, if heavy { 4 } else { 7 }),
     };
     let n = scheme.outputs();
-    let drops = (0..n)
-        .map(|_| if rng.chance(1, 4) { Some(rng.below(3) as usize) } else { None })
+    let mut drops: Vec<Option<usize>> = (0..n)
+        .map(|_| {
+            if heavy {
+                if rng.chance(2, 5) { Some(1 + rng.below(2) as usize) } else { None }
+            } else if rng.chance(1, 4) {
+                Some(*rng.pick(&[0usize, 1, 1, 2]))
+            } else {
+                None
+            }
+        })
         .collect();
+    if heavy && n >= 2 {
+        // at least one output hangs up early and at least one is read to the end
+        let a = rng.below(n as u64) as usize;
+        let b = (a + 1 + rng.below(n as u64 - 1) as usize) % n;
+        drops[a] = Some(1 + rng.below(2) as usize);
+        drops[b] = None;
+    }
     ExchCfg {
         scheme,
         inputs,
         sorted,
         want_preserve: rng.chance(2, 3),
-        batch_size: *rng.pick(&[1usize, 2, 3, 5, 16, 8192]),
-        mem: *rng.pick(&[None, None, Some(1usize), Some(300), Some(1500), Some(6000)]),
+        batch_size: if heavy { *rng.pick(&[1usize, 2, 3, 4]) } else { *rng.pick(&[1usize, 2, 3, 5, 16, 8192]) },
+        mem: if heavy { *rng.pick(&[None, None, None, Some(1500usize)]) } else { *rng.pick(&[None, None, Some(1usize), Some(300), Some(1500), Some(6000)]) },
         drops,
     }
 }
@@ -633,7 +673,7 @@ enum OutObs {
     Err(String),
 }
 
-fn run_exch(cfg: &ExchCfg, rt: &tokio::runtime::Runtime, workers: usize, watchdog_s: u64) {
+fn run_exch(cfg: &ExchCfg, rt: &tokio::runtime::Runtime, workers: usize, watchdog_s: u64) -> bool {
     let sch = schema();
     let n = cfg.scheme.outputs();
     let m = cfg.inputs.len();
@@ -666,11 +706,11 @@ fn run_exch(cfg: &ExchCfg, rt: &tokio::runtime::Runtime, workers: usize, watchdo
         Ok(Ok(x)) => x,
         Ok(Err(e)) => {
             println!("{{\"k\":\"exch\",\"ok\":false,\"why\":{},\"scheme\":{}}}", json_str(&format!("plan construction failed: {e}")), cfg.scheme.json());
-            return;
+            return false;
         }
         Err(e) => {
             println!("{{\"k\":\"exch\",\"ok\":false,\"why\":{},\"scheme\":{}}}", json_str(&format!("panic building plan: {}", panic_msg(e))), cfg.scheme.json());
-            return;
+            return false;
         }
     };
     let scfg = SessionConfig::new().with_batch_size(cfg.batch_size);
@@ -870,13 +910,14 @@ fn run_exch(cfg: &ExchCfg, rt: &tokio::runtime::Runtime, workers: usize, watchdo
         why.is_empty(),
         json_str(&why)
     );
+    why.starts_with("hang")
 }
 
 fn main() {
     let args: Vec<String> = std::env::args().collect();
     let seed: u64 = arg(&args, "--seed", "1").parse().unwrap();
     let n: usize = arg(&args, "--n", "200").parse().unwrap();
-    let watchdog: u64 = arg(&args, "--watchdog", "30").parse().unwrap();
+    let watchdog: u64 = arg(&args, "--watchdog", "12").parse().unwrap();
     if std::env::var("C10_SHOW_PANICS").is_err() {
         std::panic::set_hook(Box::new(|_| {}));
     }
@@ -892,7 +933,7 @@ fn main() {
         let rt = tokio::runtime::Builder::new_multi_thread().worker_threads(stress_workers).enable_all().build().unwrap();
         let cfg = witness_cfg(&mut rng);
         for _ in 0..stress {
-            run_exch(&cfg, &rt, stress_workers, watchdog);
+            let _ = run_exch(&cfg, &rt, stress_workers, watchdog);
         }
         return;
     }
@@ -902,46 +943,61 @@ fn main() {
         .collect();
 
     // fixed witness of the known finding first (every run): 4 inputs -> 1 output through the shared multi-producer spill
-    // pool (1-byte memory pool), 4 tokio workers; hangs in roughly one run out of four on the pinned tree
+    // pool (1-byte memory pool), 4 tokio workers; on the pinned tree it hangs in nearly every run on an idle machine (in
+    // about one run out of four when the machine is so loaded that the workers rarely run in parallel)
     {
         let mut wrng = Rng::new(0xC10);
         let cfg = witness_cfg(&mut wrng);
-        for _ in 0..8 {
-            run_exch(&cfg, &rts[2].1, rts[2].0, 4);
+        for _ in 0..3 {
+            let _ = run_exch(&cfg, &rts[2].1, rts[2].0, 3);
         }
     }
     // fixed witnesses (every run): all output counts of the spec, boundary round-robin starts, range edge cases
+    const DL: u64 = 60;
     for nn in [1usize, 2, 3, 4, 5, 6, 7, 8, 9, 16, 17, 64] {
-        hash_case(&mut rng, Some((nn, vec![0, 1])));
+        with_deadline(&mut rng, DL, "hash partition_iter", move |r| hash_case(r, Some((nn, vec![0, 1]))));
     }
     for (nn, i, m) in [(1usize, 0usize, 1usize), (5, 2, 3), (8, 7, 8), (3, 3, 4), (7, 1, 2), (4, 5, 6)] {
-        rr_case(&mut rng, Some((nn, i, m)));
+        with_deadline(&mut rng, DL, "round-robin partition_iter", move |r| rr_case(r, Some((nn, i, m))));
     }
-    range_case(&mut rng, Some(Scheme::Range { kcols: vec![0], os: vec![(false, false)], sps: vec![], valid: true }));
-    range_case(&mut rng, Some(Scheme::Range { kcols: vec![0], os: vec![(false, false)], sps: vec![vec![Cell::I(0)]], valid: true }));
-    range_case(&mut rng, Some(Scheme::Range { kcols: vec![0], os: vec![(true, true)], sps: vec![vec![Cell::Null], vec![Cell::I(1)], vec![Cell::I(0)], vec![Cell::I(-1)]], valid: true }));
-    range_case(
-        &mut rng,
-        Some(Scheme::Range {
+    let fixed_ranges = vec![
+        Scheme::Range { kcols: vec![0], os: vec![(false, false)], sps: vec![], valid: true },
+        Scheme::Range { kcols: vec![0], os: vec![(false, false)], sps: vec![vec![Cell::I(0)]], valid: true },
+        Scheme::Range { kcols: vec![0], os: vec![(true, true)], sps: vec![vec![Cell::Null], vec![Cell::I(1)], vec![Cell::I(0)], vec![Cell::I(-1)]], valid: true },
+        Scheme::Range {
             kcols: vec![1, 0],
             os: vec![(false, true), (true, false)],
             sps: vec![vec![Cell::S("".into()), Cell::I(1)], vec![Cell::S("a".into()), Cell::I(0)], vec![Cell::S("a".into()), Cell::Null], vec![Cell::S("ab".into()), Cell::I(2)]],
             valid: true,
-        }),
-    );
+        },
+    ];
+    for sc in fixed_ranges {
+        with_deadline(&mut rng, DL, "range partition_iter (fixed split points)", move |r| range_case(r, Some(sc)));
+    }
 
+    let mut class_hangs = 0usize;
     for c in 0..n {
-        hash_case(&mut rng, None);
-        range_case(&mut rng, None);
+        with_deadline(&mut rng, DL, "hash partition_iter", |r| hash_case(r, None));
+        with_deadline(&mut rng, DL, "range partition_iter", |r| range_case(r, None));
         if c % 2 == 0 {
-            rr_case(&mut rng, None);
+            with_deadline(&mut rng, DL, "round-robin partition_iter", |r| rr_case(r, None));
         }
         let cfg = gen_exch(&mut rng);
         // the same configuration a few times, on runtimes with different worker counts
         let reps = if c % 4 == 0 { 3 } else { 2 };
+        // configurations in the class of the known finding (shared spill pool: non-preserve-order, >= 2 inputs, memory
+        // limited) keep running on 2 / 4 workers until the hang has shown up twice among the random cases; after that
+        // they run on one worker (where it cannot happen) so that a run does not spend its time in watchdogs
+        let in_class = cfg.mem.is_some() && cfg.inputs.len() >= 2 && !(cfg.want_preserve && cfg.sorted.is_some());
         for r in 0..reps {
-            let (w, rt) = &rts[(c + r) % rts.len()];
-            run_exch(&cfg, rt, *w, watchdog);
+            let mut ix = (c + r) % rts.len();
+            if in_class && class_hangs >= 2 {
+                ix = 0;
+            }
+            let (w, rt) = &rts[ix];
+            if run_exch(&cfg, rt, *w, watchdog) && in_class {
+                class_hangs += 1;
+            }
         }
     }
 }
